@@ -14,7 +14,7 @@ LEVEL = "exploration"
 RULE = ("a case = shared link settings (channel, rate, CRC, address width, legal ARD, auto-ack, ask_no_ack), receiving pipe "
         "0..5 with six distinct pipe addresses, payload mode (dynamic / static L, optionally per-pipe lengths on the "
         "receiver, per-pipe dynamic masks that agree on the pipes in use, ACK payloads enabled on both ends afterwards), an "
-        "optional pre-history of 1..4 payload-mode / auto-ack / ACK-payload calls on both ends that the configuration "
+        "optional pre-history of 1..4 payload-mode / auto-ack / ACK-payload / link-setting calls on one or both ends that the configuration "
         "overrides, and 1..3 send() calls, each a bytes/bytearray buffer of 0..40 bytes or a list/tuple of 1..3 such buffers; "
         "non-trivial = at least one payload delivered AND (static mode with len != L, or pipe >= 2, or list input, or a "
         "bytearray argument); distinct = SHA-1 of the case JSON")
@@ -50,9 +50,10 @@ def configure(case, lk):
     lite_t, lite_r = lk.tx_kind == "lite", lk.rx_kind == "lite"
     # configuration history: what both ends had been set to before (another payload mode, ACK payloads, per-pipe
     # settings); the configuration below overrides all of it, so the ends are configured compatibly whatever came first
+    side = case.get("pre_side", "both")
     for op in case.get("pre", ()):
-        for r, lite in ((tx, lite_t), (rx, lite_r)):
-            if lite and (op[0].startswith("set_") or op[0] == "auto_ack" or not isinstance(op[1], (bool, int)) or
+        for r, lite in ([(tx, lite_t)] if side == "tx" else [(rx, lite_r)] if side == "rx" else [(tx, lite_t), (rx, lite_r)]):
+            if lite and (op[0].startswith("set_") or op[0] in ("auto_ack", "crc") or not isinstance(op[1], (bool, int)) or
                          (op[0] == "dynamic_payloads" and not isinstance(op[1], bool))):
                 continue
             if op[0].startswith("set_"):
@@ -382,7 +383,12 @@ def strategy(drv="full", peer="full"):
                 st.tuples(st.just("ack"), st.booleans()), st.tuples(st.just("auto_ack"), bits),
                 st.tuples(st.just("set_auto_ack"), st.booleans(), st.integers(0, 5)),
                 st.tuples(st.just("set_dynamic_payloads"), st.booleans(), st.integers(0, 5)),
-                st.tuples(st.just("set_payload_length"), n132, st.integers(0, 5))).map(list), min_size=1, max_size=4))
+                st.tuples(st.just("set_payload_length"), n132, st.integers(0, 5)),
+                st.tuples(st.just("data_rate"), st.sampled_from([1, 2, 250])), st.tuples(st.just("channel"), st.integers(0, 125)),
+                st.tuples(st.just("address_length"), st.integers(3, 5)), st.tuples(st.just("ard"), st.sampled_from([250, 1500, 4000])),
+                st.tuples(st.just("arc"), st.integers(0, 15)), st.tuples(st.just("pa_level"), st.sampled_from([-18, -12, -6, 0])),
+                st.tuples(st.just("crc"), st.integers(0, 2))).map(list), min_size=1, max_size=4))
+            c["pre_side"] = draw(st.sampled_from(["both", "tx", "rx"]))
         if not lite and draw(st.integers(0, 3)) == 0:
             c["dynmask"] = [draw(st.integers(0, 0x3F)), draw(st.integers(0, 0x3F))]
         if aa and "dynmask" not in c and draw(st.integers(0, 4)) == 0:
